@@ -842,3 +842,269 @@ def fault_runs(ctx, drv, bl, errnos=ERRNOS, workers=16, only_calls=None, as_prop
         if n % 97 == 0:
             ctx.sample({"fault": c.name, "call": where, "errno": en, "reported_ok": res["ok"], "changed": diff})
     return n, len(jobs), per_case
+
+
+# ----------------------------------------------------------------------------- TwoWriters.tla: several processes, one directory
+TW_WRONG = {"MC_TwoWriters_bad_unserialised_twofiles.cfg": "OneFilePerUser",
+            "MC_TwoWriters_bad_unserialised_strayempty.cfg": "NoStrayEmpty",
+            "MC_TwoWriters_bad_unserialised_order.cfg": "SomeOrderExplains",
+            "MC_TwoWriters_known_three_loser.cfg": "LoserHarmless"}
+TW_AUX = b"totp: QUJD\nu2f: REVG\n"
+TW_PW = {1: "new", 2: "third"}
+
+
+def two_writers_model(ctx, thorough=False):
+    """TLC on TwoWriters: free interleaving, serialised (what the dispatcher gives), the refutations that show why the
+    serialisation is needed, and the generator configuration whose printed outcomes are replayed on real processes."""
+    cov = ctx.coverage
+    pc = cov.setdefault("per_config", {})
+    for cfg in ("MC_TwoWriters_free.cfg", "MC_TwoWriters_serial.cfg") + (("MC_TwoWriters_serial3.cfg",) if thorough else ()):
+        r = ctx.run_tlc("MC_TwoWriters.tla", cfg, workers=4, timeout=600)
+        ctx.tlc_must_pass(r, cfg)
+        pc[cfg] = {"distinct": r["distinct"], "status": r["status"]}
+        cov["states"] = cov.get("states", 0) + r["distinct"]
+        cov["transitions"] = cov.get("transitions", 0) + r["generated"]
+    for cfg, inv in TW_WRONG.items():
+        r = ctx.run_tlc("MC_TwoWriters.tla", cfg, workers=1, timeout=300)
+        refuted = r["status"] == "violation" and any(inv in e for e in r["errors"])
+        pc[cfg] = {"status": r["status"], "expected": "violation of " + inv, "refuted": refuted}
+        if not refuted:
+            ctx.inconclusive.append("wrong variant %s not refuted (%s %s)" % (cfg, r["status"], r["errors"][:1]))
+    g = ctx.run_tlc("MC_TwoWriters.tla", "MC_TwoWriters_gen.cfg", workers=1, timeout=600)
+    ctx.tlc_must_pass(g, "MC_TwoWriters_gen.cfg")
+    pc["MC_TwoWriters_gen.cfg"] = {"distinct": g["distinct"], "status": g["status"]}
+    return [e for e in g["edges"] if isinstance(e, dict) and e.get("tw") == "outcome"]
+
+
+def _tw_label(base, user, r, st):
+    """model pc label of one strace'd call of process 1 (None: not a boundary the model has)"""
+    name = r["name"]
+    U, A = os.path.join(base, user + ".user"), os.path.join(base, user + ".admin")
+    strs, args = r["strs"], r["args"]
+    if name in ("openat", "open"):
+        p = strs[0] if strs else ""
+        if p in (U, A) and "O_EXCL" in args:
+            return "creat" if "O_CREAT" in args else "open"
+        if p.startswith(base + "/.tmp/") and "O_CREAT" in args:
+            return "mktmp"
+        return None
+    if name in ("mkdirat", "mkdir"):
+        return "mktmp"
+    if name in ("write", "pwrite64", "copy_file_range"):
+        fds = r["fds"]
+        tgt = fds[-1][1] if name == "copy_file_range" and len(fds) >= 2 else (fds[0][1] if fds else "")
+        if tgt.startswith(base + "/.tmp/"):
+            if not st.get("wrote"):
+                st["wrote"] = True
+                return "write"
+            return "copyaux"
+        return None
+    if name in ("fsync", "fdatasync"):
+        p = r["fds"][0][1] if r["fds"] else ""
+        return "sync" if p.startswith(base + "/.tmp/") else ("syncdir" if p == base else None)
+    if name in ("renameat", "renameat2", "rename"):
+        return "rename"
+    if name in ("unlinkat", "unlink"):
+        p = strs[0] if strs else ""
+        return "unlinkA" if p == A else ("unlinkU" if p == U else None)
+    return None
+
+
+class TwDir:
+    def __init__(self, drv, tag, init):
+        self.root = os.path.join(drv.work, tag)
+        shutil.rmtree(self.root, ignore_errors=True)
+        self.base = os.path.join(self.root, "base")
+        os.makedirs(self.base, mode=0o700)
+        self.user = "alice"
+        self.old = scrypt_record(PWS["old"]).encode() + TW_AUX
+        if init != "absent":
+            p = os.path.join(self.base, "alice." + init)
+            open(p, "wb").write(self.old)
+            os.chmod(p, 0o600)
+        open(os.path.join(self.base, "boss.admin"), "wb").write(scrypt_record(b"boss-pw").encode() + b"totp: AAAA\n")
+        open(os.path.join(self.base, "bob.user"), "wb").write(scrypt_record(b"bob-pw").encode())
+        open(os.path.join(self.root, "store.yaml"), "w").write(CFG % (self.base, base64.b64encode(HMAC1).decode()))
+        for p in (1, 2):
+            open(os.path.join(self.root, "pw%d" % p), "wb").write(PWS[TW_PW[p]])
+
+    def argv(self, drv, p, op):
+        real = {"add": "add", "addadmin": "add", "update": "update", "setadmin": "setadmin", "unsetadmin": "setadmin", "remove": "remove"}[op]
+        a = [drv.drv, "-cfg", os.path.join(self.root, "store.yaml"), "-op", real, "-user", self.user, "-pwfile", os.path.join(self.root, "pw%d" % p)]
+        if op in ("addadmin", "setadmin"):
+            a.append("-admin")
+        return a
+
+    def view(self, drv, init, ops):
+        ents = drv.pi(self.base)
+        v = {}
+        for role, ext in (("U", "user"), ("A", "admin")):
+            e = next((x for x in ents if x["name"] == "alice." + ext), None)
+            if e is None:
+                v[role] = "absent"
+            elif e["size"] == 0:
+                v[role] = "empty"
+            elif e["sha"] == hashlib.sha256(self.old).hexdigest()[:24]:
+                v[role] = "old"
+            elif e["parsed"] and e["pw"] in ("new", "third"):
+                p = 1 if e["pw"] == "new" else 2
+                auxold = e["auxlen"] == len(TW_AUX) and e["auxsha"] == hashlib.sha256(TW_AUX).hexdigest()[:24]
+                auxnone = e["auxlen"] == 0
+                if ops[p - 1] in ("add", "addadmin"):
+                    good = auxnone
+                elif init == "absent":
+                    good = auxnone                      # whatever it replaced was somebody's freshly added record
+                elif all(o in ("update", "setadmin", "unsetadmin") for o in ops):
+                    good = auxold
+                else:
+                    good = auxold or auxnone
+                v[role] = "new%d" % p if good else "torn"
+            else:
+                v[role] = "torn"
+        return v
+
+    def others(self, drv):
+        return {e["name"]: e["sha"] for e in drv.pi(self.base) if e["name"] in ("boss.admin", "bob.user")}
+
+
+def two_writer_runs(ctx, drv, outcomes, props, limit=None, workers=12):
+    """Every printed outcome of MC_TwoWriters_gen (operations of process 1 and 2, initial record, call boundary of process 1 at
+    which process 2 runs) on real processes: process 1 is held by strace on entry to the system call the model names, process 2
+    runs in one piece, process 1 goes on.  Verdicts come from the real run: no torn record (C08), a process that reports
+    failure has changed nothing (C15), other users untouched (C15), sequential cuts behave like the sequential store (C01 /
+    C11); a real outcome that differs from the model's in another way makes the run inconclusive (the specification no longer
+    describes the code), never a violation."""
+    import time as _t
+    rows = outcomes if limit is None else outcomes[:limit]
+    # one strace'd solo run of process 1 per (operation, initial record): where are the model's call boundaries?
+    solo = {}
+    for op1, init in sorted({(r["ops"][0], r["init"]) for r in rows}):
+        d = TwDir(drv, "tw-solo-%s-%s" % (op1, init), init)
+        tr = os.path.join(d.root, "strace.txt")
+        subprocess.run(["strace", "-f", "-y", "-s", "300", "-o", tr, "-e", "trace=" + CALLS] + d.argv(drv, 1, op1),
+                       stdout=subprocess.PIPE, stderr=subprocess.PIPE, timeout=60)
+        p = parse_strace(tr)
+        if p is None or not p["ended"]:
+            ctx.inconclusive.append("two-writers: solo run of %s/%s not parsed" % (op1, init))
+            continue
+        st, labels = {}, {}
+        for r in p["region"]:
+            lab = _tw_label(d.base, d.user, r, st)
+            if lab and lab not in labels:
+                labels[lab] = (r["name"], r["ordinal"])
+        solo[(op1, init)] = labels
+        shutil.rmtree(d.root, ignore_errors=True)
+
+    def result(out):
+        try:
+            return json.loads(out.decode().strip().splitlines()[-1])["ok"]
+        except Exception:
+            return None
+
+    def one(row):
+        ops, init, cut = row["ops"], row["init"], row["cut"]
+        tag = "tw-%s-%s-%s-%s" % (ops[0], ops[1], init, cut)
+        for attempt, (lead, hold) in enumerate(((0.25, 0.9), (0.7, 2.6))):
+            d = TwDir(drv, tag, init)
+            snaps = {}
+            if cut in ("statA", "done"):
+                order = (2, 1) if cut == "statA" else (1, 2)
+                rets = {}
+                for p in order:
+                    snaps["before%d" % p] = drv.snapshot(d.root)
+                    o = subprocess.run(d.argv(drv, p, ops[p - 1]), stdout=subprocess.PIPE, stderr=subprocess.PIPE, timeout=60)
+                    rets[p] = result(o.stdout)
+                    snaps["after%d" % p] = drv.snapshot(d.root)
+                ok = True
+            else:
+                lab = solo.get((ops[0], init), {}).get(cut)
+                if lab is None:
+                    return ("nomap", row, "process 1 (%s on %s) has no call boundary %r in its solo run" % (ops[0], init, cut))
+                tr = os.path.join(d.root, "strace.txt")
+                snaps["before1"] = drv.snapshot(d.root)
+                w = subprocess.Popen(["strace", "-f", "-ttt", "-o", tr, "-e", "trace=" + lab[0], "-e",
+                                      "inject=%s:delay_enter=%d:when=%d" % (lab[0], int(hold * 1e6), lab[1])] + d.argv(drv, 1, ops[0]),
+                                     stdout=subprocess.PIPE, stderr=subprocess.PIPE)
+                _t.sleep(lead)
+                snaps["before2"] = drv.snapshot(d.root)
+                t2a = _t.time()
+                o2 = subprocess.run(d.argv(drv, 2, ops[1]), stdout=subprocess.PIPE, stderr=subprocess.PIPE, timeout=60)
+                t2b = _t.time()
+                snaps["after2"] = drv.snapshot(d.root)
+                t2c = _t.time()
+                out1, _ = w.communicate(timeout=60)
+                snaps["after1"] = drv.snapshot(d.root)
+                rets = {1: result(out1), 2: result(o2.stdout)}
+                # was process 2 (and the snapshots around it) really inside the hold of process 1?
+                te, n = None, 0
+                for line in open(tr, errors="replace"):
+                    m = re.match(r"^(\d+)\s+(\d+\.\d+)\s+%s\(" % lab[0], line)
+                    if m and "resumed" not in line:
+                        n += 1
+                        if n == lab[1]:
+                            te = float(m.group(2))
+                ok = te is not None and te + 0.01 < t2a - 0.06 and t2c < te + hold - 0.01
+                snaps["window"] = [te, t2a, t2c, hold]
+            if ok:
+                break
+            shutil.rmtree(d.root, ignore_errors=True)
+        if not ok:
+            return ("timing", row, "process 2 did not fit into the hold of process 1: %s" % snaps.get("window"))
+        v = d.view(drv, init, ops)
+        oth = d.others(drv)
+        shutil.rmtree(d.root, ignore_errors=True)
+        return ("ok", row, {"rets": rets, "view": v, "snaps": snaps, "others": oth})
+
+    with concurrent.futures.ThreadPoolExecutor(max_workers=workers) as ex:
+        results = list(ex.map(one, rows))
+    ign = lambda k: k.startswith("base/.tmp") or k in ("strace.txt",)
+    n = raced = mism = 0
+    for st, row, info in results:
+        ops, init, cut = row["ops"], row["init"], row["cut"]
+        what = "%s||%s:%s:cut=%s" % (ops[0], ops[1], init, cut)
+        if st != "ok":
+            (ctx.inconclusive if st == "nomap" else ctx.notes).append("two-writers %s: %s" % (what, info))
+            continue
+        n += 1
+        rets, v, sn = info["rets"], info["view"], info["snaps"]
+        if None in rets.values():
+            ctx.violation(props.get("crash", "C15"), "two-writers:crash:%s" % what, "a writer process died: %s" % rets)
+            continue
+        real = {"ret": ["ok" if (rets[p] or ops[p - 1] == "remove") else "fail" for p in (1, 2)], "view": v}
+        if "torn" in v.values():
+            ctx.violation(props.get("torn", "C08"), "two-writers:torn-record:%s" % what,
+                          "after both writers finished the user's files are %s (results %s)" % (v, real["ret"]))
+        if len(info["others"]) != 2:
+            ctx.violation(props.get("others", "C15"), "two-writers:other-users:%s" % what, "other users' files: %s" % info["others"])
+        for p in (1, 2):
+            if real["ret"][p - 1] != "fail":
+                continue
+            if cut in ("statA", "done") or p == 2:
+                a, b = sn["before%d" % p], sn["after%d" % p]
+            else:
+                a, b = sn["after2"], sn["after1"]          # what process 1 did after the cut; before it, its only effect can be its reservation
+            diff = sorted(k for k in set(a) | set(b) if a.get(k) != b.get(k) and not ign(k))
+            if p == 1 and cut not in ("statA", "done"):
+                # ... and the reservation must be gone as well unless somebody else moved it away
+                pass
+            if diff:
+                ctx.violation(props.get("loser", "C15"), "two-writers:failed-%s-changed-store:%s" % (ops[p - 1], what),
+                              "process %d reported failure, yet the directory changed while it ran: %s" % (p, diff))
+        model = {"ret": list(row["ret"]), "view": row["view"]}
+        if real != model:
+            if cut in ("statA", "done"):
+                ctx.violation(props.get("seq", "C15"), "two-writers:sequential:%s" % what,
+                              "two operations one after the other: real %s, sequential store semantics %s" % (real, model))
+            else:
+                mism += 1
+                ctx.inconclusive.append("two-writers %s: real outcome %s differs from the model's %s" % (what, real, model))
+        if v["U"] != "absent" and v["A"] != "absent":
+            raced += 1
+        if n % 61 == 0:
+            ctx.sample({"two_writers": what, "model": model, "real": real})
+    cov = ctx.coverage
+    cov["two_writer_outcomes_replayed"] = n
+    cov["two_writer_outcomes_requested"] = len(rows)
+    cov["two_writer_races_confirmed_on_real_code"] = raced
+    cov["two_writer_model_mismatches"] = mism
+    return n
